@@ -225,7 +225,8 @@ fn gen_recording(rng: &mut Prng, l: &mut Vec<String>) {
     match variant {
         // the inner asset panics by itself / by an injected loader panic / loads normally (control) — inside `^`
         0 | 1 | 2 => {
-            put_s(l, "b", match variant { 0 => "#", 1 => "3", _ => "4 +S1:c" });
+            // (the inner asset never depends on an edited leaf: it is looked up unrecorded, so its reload would not be ordered before the outer one's)
+            put_s(l, "b", match variant { 0 => "#", 1 => "3", _ => "4 5" });
             put_s(l, "a", &format!("1 {} ^S1:b {}", pre.join(" "), post_toks.join(" ")));
             if variant == 1 { l.push(format!("fault.load {} panic", 1 + pre_invocations)); }
             l.push(format!("load S0 {}", hexs("a")));
@@ -520,9 +521,18 @@ impl FaultEngine {
                 let d2 = exec(&mut wx, "dump");
                 rec.op("dump", d2.clone());
                 let vals = dump_values(&d2);
+                // Recovery is owed when the fault made a reload FAIL: the asset keeps its dependencies (plus what the failed attempt read),
+                // so the same notification reloads it again. When some loader tolerated the fault (`=`, default value, `catch_unwind`,
+                // next extension) the pass succeeded with a legitimately degraded value and nothing says it must be redone: a loader
+                // that failed at its very start has read nothing the reloader could watch.
+                // root = the directly reloaded asset during whose reload the fault struck
+                let inv_at = if f.is_read { reads[..=f.k.min(reads.len().saturating_sub(1))].iter().filter(|r| r.starts_with("f:") && r.ends_with(".s")).count().checked_sub(1) } else { Some(f.k) };
+                let root = if !consistent_log { None } else { inv_at.and_then(|j| invocations[..=j.min(invocations.len().saturating_sub(1))].iter().rev().find(|inv| inv.2 == 0 && before.contains_key(&(inv.0.clone(), inv.1.clone())))) };
+                let root_failed = root.map_or(false, |inv| { let key = (inv.0.clone(), inv.1.clone()); before.get(&key).map(|b| b.2) == after.get(&key).map(|a| a.2) });
                 // entries created during the faulted pass by a loader that tolerated the fault legitimately stay as they are
                 let degraded = after.iter().any(|(k, v)| !before.contains_key(k) && clean_vals.get(&format!("{}/{}", k.0, hexs(&k.1))) != Some(&v.0));
-                if degraded { rec.stat("recovery-not-owed-tolerated-fresh-entry"); }
+                if !root_failed { rec.stat(if root.is_some() { "recovery-not-owed-fault-tolerated" } else { "recovery-not-owed-root-unknown" }); }
+                else if degraded { rec.stat("recovery-not-owed-tolerated-fresh-entry"); }
                 else {
                     rec.stat("recovery-checked");
                     if vals != clean_vals {
